@@ -380,7 +380,7 @@ class QMI_SerialTransport(QMI_Transport):
 
     def __init__(self,
                  device: str,
-                 baudrate: int,
+                 baudrate: int = 115200,
                  bytesize: int = 8,
                  parity: str = 'N',
                  stopbits: float = 1.0,
@@ -390,7 +390,7 @@ class QMI_SerialTransport(QMI_Transport):
 
         Parameters:
             device:   The device name, e.g. COM3 on Windows or /dev/ttyS1 or /dev/ttyUSB1 on Linux.
-            baudrate: The baud rate in bits per second.
+            baudrate: The baud rate in bits per second (default 115200).
             bytesize: The number of bits per character (5, 6, 7 or 8).
             parity:   The parity mode (valid values are 'N','E','O').
             stopbits: The number of stop bits (1.0, 1.5 or 2.0).
